@@ -128,6 +128,7 @@ def strategy(draw):
     L = draw(st.integers(8, 30))
     arch = draw(nets.arch_strategy(L))
     X, refs, n, ns = draw(inputs(L, modes=("tensor", "dinuc", "shuffle")))
+    refs.pop("unseeded", None)          # without a seed the shuffles are not reproducible by design
     extra = draw(st.integers(1, 2))
     while n < 2 and extra:
         X = X + [[draw(st.integers(0, 3)) for _ in range(L)]]
